@@ -1,36 +1,191 @@
-"""C05 — wire formats are canonical (DESIGN §3 C05)."""
+"""C05 — wire formats are canonical (DESIGN §3 C05).
+
+Correspondence streams (model `lean/Model/C05/*` vs the real btclib, same op lines):
+  varint.parse                         CompactSize parser under every cap
+  <class>.parse s|o <hex>              stream mode (BytesIO in, unread rest out) / octets mode
+      (assert_no_trailing) for varbytes, outpoint, witness, txin, txout, tx, header, block,
+      psbtmap, msg (p2p envelope), xkey (BIP32KeyData), keyorigin; on acceptance the line also carries
+      the model's own re-serialization and size of the parsed object (and for tx: stripped form, both
+      sizes, weight, vsize, txid, wtxid), so one op ties parser, serializer and size function.
+  psbtmap.norm                         sorted re-emission of one PSBT input map
+Property oracles on the real code alone: `harness/c05_oracles.py` (round trips of every class with a
+parse/serialize or to_dict/from_dict pair) and the ones below.
+"""
 from __future__ import annotations
 
+import hashlib
+import os
+import re
 from io import BytesIO
 
-from btclib import var_int
+from btclib import var_bytes, var_int
+from btclib.block import Block, BlockHeader
+from btclib.script import Witness
+from btclib.tx import OutPoint, Tx, TxIn, TxOut
 
 from . import common
 from .common import hx, unhx
 
 PROP = "C05"
 EXE = "drv_c05"
-GEN_MODULES = ["VarInt"]
-RULE = ("op lines are generated from one seeded PRNG: boundary-heavy integers and structure-aware byte "
-        "mutations of valid encodings; a case is non-trivial when the implementation did not refuse it at "
-        "the first check; distinct = distinct (stream, op line)")
-TRUSTED = ["hand-written parser models are tied by correspondence only (Model/C05/*.lean)"]
+GEN_MODULES = ["VarInt", "Wire"]
+RULE = ("op lines are generated from one seeded PRNG: valid objects built field by field with boundary "
+        "values (integer extremes, CompactSize widths of every count/length), vendored encodings from "
+        "/repo/tests, and structure-aware byte mutations of both (truncation at field boundaries, "
+        "extension, length/count/marker/flag edits, non-minimal CompactSize, marker insertion/removal, "
+        "all-empty witness sections); a case is non-trivial when the implementation did not refuse it; "
+        "distinct = distinct (stream, op line)")
+TRUSTED = ["hand-written parser/serializer models are tied by correspondence only (Model/C05/*.lean)",
+           "datetime.fromtimestamp/timestamp as a bijection on 0..2^32-1 (BlockHeader.time)",
+           "SHA-256 of the driver (Model/Common/Sha256.lean) is modelled, validated against hashlib by the id streams",
+           "JSON text layer (json module), base64, Base58Check: not modelled; round-trip oracles only"]
 ASSUMPTIONS = []
 
 
-# ------------------------------------------------------------------ implementation side
+# ------------------------------------------------------------------ error kinds
+def kind_of(e: BaseException) -> str:
+    c = common.err_class(e)
+    msg = str(e)
+    if c == "runtime":
+        return "shortbytes" if "not enough binary data" in msg else "runtime:" + msg[:40]
+    if c != "value":
+        return c
+    if "not enough" in msg:
+        return "short"
+    if "non-canonical" in msg:
+        return "noncanonical"
+    if "too big" in msg:
+        return "toobig"
+    if "superfluous witness" in msg:
+        return "superfluous"
+    if "bytes after the" in msg:
+        return "trailing"
+    if "invalid decoded length" in msg:
+        return "badlength"
+    if "at least a map is missing" in msg:
+        return "nomap"
+    if "unterminated map" in msg:
+        return "unterminated"
+    if "duplicated key" in msg:
+        return "dupkey"
+    if "incomplete message" in msg:
+        return "short"
+    if "invalid checksum" in msg:
+        return "badchecksum"
+    if "command" in msg:
+        return "badcommand"
+    if "invalid payload length" in msg:
+        return "toobig"
+    return "value:" + msg[:40]
+
+
+# ------------------------------------------------------------------ renderers (mirror Driver/C05Main.lean)
+def join_with(sep, items, empty="-"):
+    return sep.join(items) if items else empty
+
+
+def r_outpoint(o):
+    return f"{hx(o.tx_id)}:{o.vout}"
+
+
+def r_witness(w):
+    return join_with(",", [hx(x) for x in w.stack])
+
+
+def r_txin(i):
+    return f"{r_outpoint(i.prev_out)}/{hx(i.script_sig)}/{i.sequence}/{r_witness(i.script_witness)}"
+
+
+def r_txout(o):
+    return f"{o.value}/{hx(o.script_pub_key.script)}"
+
+
+def r_tx(t):
+    return (f"v={t.version} l={t.lock_time} in=[{join_with(';', [r_txin(i) for i in t.vin])}] "
+            f"out=[{join_with(';', [r_txout(o) for o in t.vout])}]")
+
+
+def r_header(h):
+    return (f"{h.version}/{hx(h.previous_block_hash)}/{hx(h.merkle_root)}/{int(h.time.timestamp())}/"
+            f"{hx(h.bits)}/{h.nonce}")
+
+
+def h256(b):
+    return hashlib.sha256(hashlib.sha256(b).digest()).digest()
+
+
+def _tx_extra(t):
+    s0 = t.serialize(include_witness=False, check_validity=False)
+    return (f" stripped={hx(s0)} ssize={t._serialized_size(include_witness=False)} weight={t.weight} "
+            f"vsize={t.vsize} id={hx(t.id)} wid={hx(t.hash)} segwit={'true' if t.is_segwit else 'false'}")
+
+
+def _block_extra(b):
+    return (f" ssize={b.stripped_size} weight={b.weight} "
+            f"stripped={hx(h256(b.serialize(include_witness=False, check_validity=False)))}")
+
+
+def _r_block(b):
+    return (f"{r_header(b.header)} n={len(b.transactions)} "
+            f"txs={hx(h256(''.join(r_tx(t) for t in b.transactions).encode()))}")
+
+
+class _VarBytes:
+    """var_bytes as a class-shaped codec for the generic runner."""
+
+    @staticmethod
+    def parse(data, check_validity=False):
+        s = data if isinstance(data, BytesIO) else BytesIO(data)
+        v = var_bytes.parse(s)
+        if not isinstance(data, BytesIO) and s.read():
+            from btclib.exceptions import BTClibValueError
+            raise BTClibValueError("1 bytes after the var_bytes")
+        return v
+
+
+CLASSES = {
+    # op: (parse(data)->obj, render, serialize(obj), size(obj), extra(obj))
+    "varbytes.parse": (lambda d: _VarBytes.parse(d), hx, var_bytes.serialize, var_bytes._size, None),
+    "outpoint.parse": (lambda d: OutPoint.parse(d, check_validity=False), r_outpoint,
+                       lambda o: o.serialize(check_validity=False), lambda o: o._serialized_size(), None),
+    "witness.parse": (lambda d: Witness.parse(d, check_validity=False), r_witness,
+                      lambda o: o.serialize(check_validity=False), lambda o: o._serialized_size(), None),
+    "txin.parse": (lambda d: TxIn.parse(d, check_validity=False), r_txin,
+                   lambda o: o.serialize(check_validity=False), lambda o: o._serialized_size(), None),
+    "txout.parse": (lambda d: TxOut.parse(d, check_validity=False), r_txout,
+                    lambda o: o.serialize(check_validity=False), lambda o: o._serialized_size(), None),
+    "tx.parse": (lambda d: Tx.parse(d, check_validity=False), r_tx,
+                 lambda o: o.serialize(include_witness=True, check_validity=False), lambda o: o.size, _tx_extra),
+    "header.parse": (lambda d: BlockHeader.parse(d, check_validity=False), r_header,
+                     lambda o: o.serialize(check_validity=False), lambda o: o._serialized_size(),
+                     lambda o: f" hash={hx(o.hash)}"),
+    "block.parse": (lambda d: Block.parse(d, check_validity=False), _r_block,
+                    lambda o: o.serialize(include_witness=True, check_validity=False), lambda o: o.size,
+                    _block_extra),
+}
+
+
+def run_class(op: str, mode: str, b: bytes) -> str:
+    parse, render, ser, size, extra = CLASSES[op]
+    try:
+        if mode == "s":
+            s = BytesIO(b)
+            obj = parse(s)
+            rest = s.read()
+        else:
+            obj = parse(b)
+            rest = b""
+    except Exception as e:  # noqa: BLE001 - the class and message are the observation
+        return "err " + kind_of(e)
+    return f"ok {render(obj)} rest={hx(rest)} ser={hx(ser(obj))} size={size(obj)}{extra(obj) if extra else ''}"
+
+
 def _varint_parse(b: bytes, max_size: int) -> str:
     s = BytesIO(b)
     try:
         v = var_int.parse(s, max_size)
     except Exception as e:  # noqa: BLE001
-        c = common.err_class(e)
-        if c != "value":
-            return "err " + c
-        msg = str(e)
-        kind = ("short" if "not enough" in msg else "noncanonical" if "non-canonical" in msg
-                else "toobig" if "too big" in msg else "other")
-        return "err " + kind
+        return "err " + kind_of(e)
     return f"ok {v} {hx(s.read())}"
 
 
@@ -38,6 +193,11 @@ def impl(line: str) -> str:
     t = line.split(" ")
     if t[0] == "varint.parse":
         return _varint_parse(unhx(t[1]), int(t[2]))
+    if t[0] in CLASSES and len(t) == 3:
+        return run_class(t[0], t[1], unhx(t[2]))
+    from . import c05_extra
+    if t[0] in c05_extra.OPS and len(t) == 3:
+        return c05_extra.OPS[t[0]](t[1], unhx(t[2]))
     return "bad-op"
 
 
@@ -70,12 +230,289 @@ def _o_varint_canonical(w):
     return var_int.serialize(v) == b[:used], f"accepted {b[:used].hex()} as {v}"
 
 
-ORACLES = {"varint.roundtrip": _o_varint_roundtrip, "varint.canonical": _o_varint_canonical}
+def _o_wire_canonical(w):
+    """T2 on the real code: whatever `X.parse` accepts (stream mode) re-serializes to exactly the bytes it
+    consumed, its size is their number, and octets mode accepts iff nothing is left."""
+    op, b = w["op"], bytes.fromhex(w["b"])
+    parse, _render, ser, size, _ = CLASSES[op]
+    s = BytesIO(b)
+    try:
+        obj = parse(s)
+    except Exception as e:  # noqa: BLE001
+        c = common.err_class(e)
+        return c in ("value", "runtime"), f"{op} refused with {type(e).__name__}: {str(e)[:80]}"
+    used = len(b) - len(s.read())
+    out = ser(obj)
+    if out != b[:used]:
+        return False, f"{op} accepted {b[:used].hex()[:120]} but re-serializes to {out.hex()[:120]}"
+    if size(obj) != used:
+        return False, f"{op} size {size(obj)} != {used} bytes consumed"
+    try:
+        parse(b)
+        whole = True
+    except Exception:  # noqa: BLE001
+        whole = False
+    if whole != (used == len(b)):
+        return False, f"{op} octets mode accepted={whole} with {len(b) - used} trailing bytes"
+    return True, f"{op} accepted {used} bytes"
+
+
+def _o_wire_roundtrip(w):
+    """T1 on the real code: parse(serialize(x) ‖ rest) == (x, rest) for the object x = parse(b)."""
+    op, b, rest = w["op"], bytes.fromhex(w["b"]), bytes.fromhex(w.get("rest", ""))
+    parse, _render, ser, _size, _ = CLASSES[op]
+    try:
+        x = parse(b)
+    except Exception as e:  # noqa: BLE001
+        return common.err_class(e) in ("value", "runtime"), "not an encoding"
+    out = ser(x)
+    s = BytesIO(out + rest)
+    try:
+        y = parse(s)
+    except Exception as e:  # noqa: BLE001
+        return False, f"{op}: parse(serialize(x)) raised {type(e).__name__}: {e}"
+    left = s.read()
+    return (y == x and left == rest), f"{op}: equal={y == x} rest_ok={left == rest}"
+
+
+ORACLES = {"varint.roundtrip": _o_varint_roundtrip, "varint.canonical": _o_varint_canonical,
+           "wire.canonical": _o_wire_canonical, "wire.roundtrip": _o_wire_roundtrip}
+
+try:  # direct round-trip oracles for every class with a parse/serialize or to_dict/from_dict pair
+    from . import c05_oracles
+    ORACLES.update(c05_oracles.ORACLES)
+except ImportError:  # pragma: no cover
+    c05_oracles = None
+
+
+# ------------------------------------------------------------------ generators
+class Parts:
+    """A serialization kept as named parts, so that mutations know the field boundaries."""
+
+    def __init__(self):
+        self.parts = []  # (kind, bytes) kind in {"int","count","len","bytes","marker","hash"}
+
+    def add(self, kind, b):
+        self.parts.append((kind, bytes(b)))
+        return self
+
+    def extend(self, other):
+        self.parts += other.parts
+        return self
+
+    def bytes(self):
+        return b"".join(b for _, b in self.parts)
+
+    def boundaries(self):
+        out, n = [0], 0
+        for _, b in self.parts:
+            n += len(b)
+            out.append(n)
+        return out
+
+
+def vi(n):
+    return var_int.serialize(n)
+
+
+LEN_CHOICES = [0, 0, 1, 1, 2, 5, 20, 22, 34, 75, 76, 107, 252, 253, 254, 255, 256, 520]
+
+
+def g_script(rng, big_ok=False):
+    n = rng.choice(LEN_CHOICES)
+    if big_ok and rng.random() < 0.02:
+        n = rng.choice([65535, 65536])
+    return common.rand_bytes(rng, n) if n < 600 else bytes([rng.getrandbits(8)]) * n
+
+
+def g_u32(rng):
+    return rng.choice([0, 1, 2, 0xFFFFFFFE, 0xFFFFFFFF, 0x80000000, 0x7FFFFFFF, rng.getrandbits(32), rng.getrandbits(8)])
+
+
+def p_outpoint(rng):
+    txid = rng.choice([b"\x00" * 32, b"\xff" * 32, common.rand_bytes(rng, 32)])
+    return Parts().add("hash", txid).add("int", g_u32(rng).to_bytes(4, "little"))
+
+
+def p_varbytes(rng, big_ok=False):
+    s = g_script(rng, big_ok)
+    return Parts().add("len", vi(len(s))).add("bytes", s)
+
+
+def p_txin(rng):
+    return p_outpoint(rng).extend(p_varbytes(rng, True)).add("int", g_u32(rng).to_bytes(4, "little"))
+
+
+def g_amount(rng):
+    return rng.choice([0, 1, 546, 5000000000, 2099999997690000, 2099999997690001, 2**63 - 1, -1, -2**63,
+                       rng.getrandbits(40), rng.getrandbits(63)])
+
+
+def p_txout(rng):
+    return Parts().add("int", g_amount(rng).to_bytes(8, "little", signed=True)).extend(p_varbytes(rng, True))
+
+
+def p_witness(rng, allow_empty=True):
+    n = rng.choice([0, 1, 1, 2, 2, 3, 5]) if allow_empty else rng.choice([1, 2, 3])
+    if rng.random() < 0.01:
+        n = rng.choice([252, 253])
+    p = Parts().add("count", vi(n))
+    for _ in range(n):
+        p.extend(p_varbytes(rng) if n < 50 else Parts().add("len", b"\x00"))
+    return p
+
+
+def p_tx(rng):
+    nin = rng.choice([1, 1, 1, 2, 3, 0])
+    nout = rng.choice([1, 1, 2, 3, 0])
+    r = rng.random()
+    if r < 0.015:
+        nin = rng.choice([252, 253])
+    elif r < 0.03:
+        nout = rng.choice([252, 253])
+    segwit = nin > 0 and rng.random() < 0.5
+    p = Parts().add("int", g_u32(rng).to_bytes(4, "little"))
+    if segwit:
+        p.add("marker", b"\x00\x01")
+    p.add("count", vi(nin))
+    small = nin > 50
+    for _ in range(nin):
+        p.extend(p_outpoint(rng).add("len", b"\x00").add("int", b"\xff" * 4) if small else p_txin(rng))
+    p.add("count", vi(nout))
+    for _ in range(nout):
+        p.extend(Parts().add("int", b"\x01" + b"\x00" * 7).add("len", b"\x00") if nout > 50 else p_txout(rng))
+    if segwit:
+        some = False
+        for k in range(nin):
+            w = p_witness(rng)
+            if k == nin - 1 and not some and w.parts[0][1] == b"\x00":
+                w = p_witness(rng, allow_empty=False)
+            some = some or w.parts[0][1] != b"\x00"
+            p.extend(w)
+    p.add("int", g_u32(rng).to_bytes(4, "little"))
+    return p
+
+
+def p_header(rng):
+    v = rng.choice([1, 2, 0x20000000, 0x7FFFFFFF, -1, 0, -2**31, rng.getrandbits(31)])
+    t = rng.choice([0, 1231006505, 2**32 - 1, rng.getrandbits(32)])
+    return (Parts().add("int", v.to_bytes(4, "little", signed=True)).add("hash", common.rand_bytes(rng, 32))
+            .add("hash", common.rand_bytes(rng, 32)).add("int", t.to_bytes(4, "little"))
+            .add("hash", rng.choice([bytes.fromhex("ffff001d"), common.rand_bytes(rng, 4)]))
+            .add("int", g_u32(rng).to_bytes(4, "little")))
+
+
+def p_block(rng):
+    n = rng.choice([0, 1, 2, 3])
+    p = p_header(rng).add("count", vi(n))
+    for _ in range(n):
+        p.extend(p_tx(rng))
+    return p
+
+
+GENS = {"varbytes.parse": lambda r: p_varbytes(r, True), "outpoint.parse": p_outpoint, "witness.parse": p_witness,
+        "txin.parse": p_txin, "txout.parse": p_txout, "tx.parse": p_tx, "header.parse": p_header,
+        "block.parse": p_block}
+
+
+def nonminimal(b: bytes, rng) -> bytes:
+    """the same CompactSize value in a wider (non-canonical) form"""
+    if not b:
+        return b
+    if b[0] < 0xFD:
+        v = b[0]
+    else:
+        v = int.from_bytes(b[1:], "little")
+    w = rng.choice([w for w in (2, 4, 8) if v < 256**w and w + 1 > len(b)] or [8])
+    return bytes([{2: 0xFD, 4: 0xFE, 8: 0xFF}[w]]) + (v % 256**w).to_bytes(w, "little")
+
+
+def mutate(p: Parts, rng) -> bytes:
+    """one structure-aware mutation of a valid encoding"""
+    b = p.bytes()
+    bounds = p.boundaries()
+    r = rng.random()
+    idx = [i for i, (k, _) in enumerate(p.parts) if k in ("count", "len", "marker")]
+    if r < 0.22:  # truncate at / next to a field boundary
+        k = rng.choice(bounds) + rng.choice([0, 0, -1, 1])
+        return b[:max(0, min(len(b), k))]
+    if r < 0.32:  # extend
+        return b + rng.choice([b"\x00", b"\x01", b"\xff", common.rand_bytes(rng, rng.randrange(1, 5))])
+    if r < 0.62 and idx:  # edit a count / length / marker byte
+        i = rng.choice(idx)
+        kind, part = p.parts[i]
+        at = bounds[i]
+        if rng.random() < 0.3:
+            new = nonminimal(part, rng) if kind != "marker" else rng.choice([b"\x00\x00", b"\x00\x02", b"\x01\x01", b"\x00"])
+        else:
+            x = part[0]
+            y = rng.choice([x + 1, x - 1, 0, 1, 0xFC, 0xFD, 0xFE, 0xFF]) % 256
+            new = bytes([y]) + part[1:]
+        return b[:at] + new + b[at + len(part):]
+    if r < 0.72:  # marker games: insert or drop `00 01` after the first 4 bytes
+        if b[4:6] == b"\x00\x01":
+            return b[:4] + b[6:]
+        return b[:4] + b"\x00\x01" + b[4:]
+    if r < 0.80:  # all-empty witness section / extra empty witness before the last 4 bytes
+        k = rng.choice([1, 1, 2, 3])
+        return b[:-4] + b"\x00" * k + b[-4:] if len(b) >= 4 else b + b"\x00"
+    if r < 0.92 and b:  # flip / replace one byte anywhere
+        k = rng.randrange(len(b))
+        return b[:k] + bytes([rng.choice([b[k] ^ (1 << rng.randrange(8)), 0, 0xFF, 0xFD])]) + b[k + 1:]
+    # drop a whole part
+    if len(p.parts) > 1:
+        i = rng.randrange(len(p.parts))
+        return b"".join(x for j, (_, x) in enumerate(p.parts) if j != i)
+    return b
+
+
+# ------------------------------------------------------------------ vendored seeds
+_SEEDS = None
+
+
+def seeds():
+    """hex strings found under /repo/tests that some wire parser accepts: {op: [bytes]}"""
+    global _SEEDS
+    if _SEEDS is not None:
+        return _SEEDS
+    found = {op: [] for op in ("tx.parse", "header.parse", "block.parse")}
+    cands = set()
+    root = "/repo/tests"
+    for d, _, fs in os.walk(root):
+        for f in sorted(fs):
+            p = os.path.join(d, f)
+            try:
+                if f.endswith(".bin") and os.path.getsize(p) < 2_500_000:
+                    cands.add(open(p, "rb").read())
+                    continue
+                if not f.endswith((".py", ".json", ".txt", ".hex", ".csv")) or os.path.getsize(p) > 3_000_000:
+                    continue
+                txt = open(p, encoding="utf8", errors="ignore").read()
+            except OSError:
+                continue
+            for m in re.finditer(r"(?<![0-9a-fA-F])(?:[0-9a-fA-F]{2}){60,}(?![0-9a-fA-F])", txt):
+                if len(m.group(0)) <= 2_400_000:
+                    cands.add(bytes.fromhex(m.group(0)))
+    for b in sorted(cands, key=lambda x: (len(x), x)):
+        for op in found:
+            if op == "header.parse" and len(b) != 80:
+                continue
+            if op == "block.parse" and len(b) < 81:
+                continue
+            try:
+                CLASSES[op][0](b)
+            except Exception:  # noqa: BLE001
+                continue
+            found[op].append(b)
+            break
+    _SEEDS = found
+    return found
 
 
 # ------------------------------------------------------------------ run
 def run(ctx):
     rng = ctx.rng
+    # ---- CompactSize (spine slice)
     ints = [v for v in common.boundary_ints(rng, extra=[0xFD, 0xFFFF, 0xFFFFFFFF, 2**64 - 1, var_int.MAX_SIZE])]
     for i in ints:
         ctx.check("varint.roundtrip", {"i": i, "rest": hx(common.rand_bytes(rng, rng.randrange(3))).replace("_", "")},
@@ -102,3 +539,57 @@ def run(ctx):
         lines.append(f"varint.parse {hx(b)} {rng.choice(maxes)}")
         ctx.check("varint.canonical", {"b": b.hex()})
     ctx.stream("varint.parse", lines)
+
+    # ---- wire classes: valid objects, mutations, vendored seeds
+    per_class = {"varbytes.parse": 300, "outpoint.parse": 200, "witness.parse": 400, "txin.parse": 400,
+                 "txout.parse": 400, "tx.parse": 1200, "header.parse": 200, "block.parse": 120}
+    sd = seeds()
+    for op, gen in GENS.items():
+        lines = []
+        n = ctx.n(per_class[op], per_class[op] * 12)
+        pool = []
+        for k in range(n):
+            p = gen(rng)
+            r = rng.random()
+            if r < 0.40:
+                b = p.bytes()
+                cls = "valid"
+            elif r < 0.47:
+                b = p.bytes() + common.rand_bytes(rng, rng.randrange(1, 4))
+                cls = "valid+rest"
+            else:
+                b = mutate(p, rng)
+                cls = "mutated"
+            mode = "s" if rng.random() < 0.6 else "o"
+            lines.append(f"{op} {mode} {hx(b)}")
+            ctx.count("c05.input_class", f"{op}:{cls}")
+            pool.append(b)
+        # vendored encodings and mutations of them (byte-level: boundaries unknown)
+        vend = sd.get(op, [])
+        take = vend if ctx.tier == "thorough" else [v for v in vend if len(v) < 200_000][:ctx.n(60)]
+        for v in take:
+            lines.append(f"{op} o {hx(v)}")
+            ctx.count("c05.input_class", f"{op}:vendored")
+            pool.append(v)
+            if len(v) < 5000:
+                for _ in range(3):
+                    p = Parts().add("int", v[:4]).add("count", v[4:5]).add("bytes", v[5:-4]).add("int", v[-4:])
+                    m = mutate(p, rng)
+                    lines.append(f"{op} {rng.choice('so')} {hx(m)}")
+                    ctx.count("c05.input_class", f"{op}:vendored-mutated")
+                    pool.append(m)
+        ctx.stream(op, lines)
+        # property oracles on the real code alone, on a sample of the same inputs
+        for b in pool[:ctx.n(250, 2500)]:
+            if len(b) > 100_000:
+                continue
+            ctx.check("wire.canonical", {"op": op, "b": b.hex()})
+            ctx.check("wire.roundtrip", {"op": op, "b": b.hex(), "rest": common.rand_bytes(rng, rng.randrange(3)).hex()},
+                      nontrivial=False)
+
+    from . import c05_extra
+    c05_extra.run(ctx)
+    if c05_oracles is not None and hasattr(c05_oracles, "run"):
+        c05_oracles.run(ctx)
+    else:
+        ctx.note("harness/c05_oracles.py missing: per-class round-trip oracles not run")
